@@ -22,7 +22,9 @@ Definition run_line (l : bytes) : bytes :=
       else if beq kind (s2b "canon") then run_canon args
       else if beq kind (s2b "reg") then run_reg args
       else if beq kind (s2b "rdfxml") then run_rdfxml args
+      else if beq kind (s2b "rdfxmlq") then run_rdfxmlq args
       else if beq kind (s2b "jsonld") then run_jsonld args
+      else if beq kind (s2b "jsonldq") then run_jsonldq args
       else if beq kind (s2b "rdfa") then run_rdfa args
       else if beq kind (s2b "mdata") then run_mdata args
       else if beq kind (s2b "res") then run_res args
